@@ -44,8 +44,13 @@ def make_plan(seed: int, tier: str, opts: dict) -> dict:
             per = min(per_u, 1.0 / spec["nodes"][c["dst"]]["rate"])
             dmin = round(per * r.choice([0.0, 0.1, 0.35]), 6)
             dmax = round(dmin + per_u * r.choice([0.6, 1.0, 1.4, 2.0]), 6)
+            old_ = (c["dist"], c["delay"])
             c["dist"] = ["train", dmin, dmax, dmin]
             c["delay"] = round(min(per, dmin + 0.5 * (dmax - dmin)), 6)
+            from simrex import spec as _sp3
+
+            if _sp3.in_S(spec) is not None:  # (e.g. a minimum delay of 0 can close a zero-latency cycle, rule 7): leave the connection as it was
+                c["dist"], c["delay"] = old_
     n_eps = r.choice([1, 2, 3, 3])
     eps = [driver.gen_episode(r, j, open_loop=spec["open_loop"], nsteps=r.randint(3, opts.get("max_steps", 9)), endings=("stop",), override_p=0.0, faults=False) for j in range(n_eps)]
     pairs = [(m, p) for m in compiled.MODES for p in (True, False)]
